@@ -119,7 +119,7 @@ IMETA = [{}, {}, {}, {'ifdef': 'FLEXIBLE'}, {'ifndef': 'FLEXIBLE'}, {'comment': 
 MOLMETA = [{}, {}, {'define': {'POSRES_FC': 1000}}, {'post_section_lines': {'atoms': ['; end of atoms']}},
            {'some_flag': True, 'define': {'K_B': '1250'}}]
 HEADERS = ['generated by the C03 check', 'second line', 'a ; b', '', 'martinize2 -f in.pdb -o topol.top']
-VARIANT_KINDS = ['key-swap', 'key-swap', 'param', 'param', 'atype', 'atype', 'atomname', 'atomname', 'resname', 'resid', 'resid', 'charge', 'mass',
+VARIANT_KINDS = ['inter-neighbour', 'param-close', 'key-swap', 'key-swap', 'param', 'param', 'atype', 'atype', 'atomname', 'atomname', 'resname', 'resid', 'resid', 'charge', 'mass',
                  'charge_group', 'edge', 'node-order', 'node-order', 'atomid', 'atomid', 'inter-drop', 'inter-add', 'inter-swap',
                  'inter-meta', 'nrexcl', 'key']
 
@@ -150,9 +150,13 @@ def _template(draw):
             atom['charge'] = CHARGES[charge_idx]
             if cmode == 'mixed' and has_mass:
                 atom['mass'] = 72.0
-    key_mode = draw(st.sampled_from(['range', 'offset', 'sparse', 'sparse']))
+    key_mode = draw(st.sampled_from(['range', 'offset', 'sparse', 'sparse', 'huge']))
     if key_mode == 'range':
         keys = list(range(n))
+    elif key_mode == 'huge':
+        # node keys as global atom indices of a very large system
+        start = draw(st.sampled_from([100000, 1000000, 2 ** 31, 10 ** 12]))
+        keys = list(range(start, start + n))
     elif key_mode == 'offset':
         start = draw(st.integers(-5, 300))
         keys = list(range(start, start + n))
@@ -165,7 +169,7 @@ def _template(draw):
         order = list(range(n))[::-1]
     else:
         order = list(draw(st.permutations(list(range(n)))))
-    atomid_mode = draw(st.sampled_from(['logical', 'none', 'perm', 'logical', 'none', 'perm', 'logical', 'node']))
+    atomid_mode = draw(st.sampled_from(['logical', 'none', 'perm', 'logical', 'none', 'perm', 'logical', 'node', 'partial']))
     base = draw(st.sampled_from([0, 0, 0, 10, 1000, 99000]))
     if atomid_mode == 'none':
         atomid = None
@@ -175,6 +179,12 @@ def _template(draw):
         atomid = [0] * n
         for rank, l in enumerate(order):
             atomid[l] = base + rank + 1
+    elif atomid_mode == 'partial':
+        # some atoms numbered, some not (a molecule extended by hand after it was read): the statement does not say where the
+        # unnumbered ones go, but every writer has to put them at the same place
+        atomid = [base + i + 1 for i in draw(st.permutations(list(range(n))))]
+        for l in draw(st.lists(st.integers(0, n - 1), min_size=1, max_size=max(1, n - 1), unique=True)):
+            atomid[l] = None
     else:
         atomid = [base + i + 1 for i in draw(st.permutations(list(range(n))))]
     interactions = []
@@ -185,6 +195,10 @@ def _template(draw):
         params = PARAMS[name][draw(st.integers(0, len(PARAMS[name]) - 1))]
         meta = IMETA[draw(st.integers(0, len(IMETA) - 1))]
         interactions.append({'type': name, 'atoms': members, 'params': list(params), 'meta': dict(meta)})
+    if draw(st.sampled_from([False, False, True])):
+        # parameters held as numbers, as computed ones (elastic network, Go model, scfix) are
+        for inter in interactions:
+            inter['params'] = [float(p) if '.' in p and p.replace('.', '').isdigit() else p for p in inter['params']]
     edges = set()
     if draw(st.booleans()):
         for inter in interactions:
@@ -271,6 +285,10 @@ def _apply_variant(inst, variant):
         kind = 'atype'
     if kind in ('inter-drop', 'inter-meta') and not inters:
         kind = 'inter-add'
+    if kind == 'inter-neighbour' and not any(0 < len(inter['atoms']) < n for inter in inters):
+        kind = 'inter-add'
+    if kind == 'param-close' and not any(isinstance(p, float) for inter in inters for p in inter['params']):
+        kind = 'param' if any(inter['params'] for inter in inters) else 'atype'
     if kind == 'inter-swap':
         found = None
         for x in range(len(inters)):
@@ -290,7 +308,28 @@ def _apply_variant(inst, variant):
         with_params = [inter for inter in inters if inter['params']]
         inter = with_params[i % len(with_params)]
         pos = j % len(inter['params'])
-        inter['params'][pos] = inter['params'][pos] + '5'
+        if isinstance(inter['params'][pos], float):
+            inter['params'][pos] = inter['params'][pos] + 0.5
+        else:
+            inter['params'][pos] = inter['params'][pos] + '5'
+    elif kind == 'param-close':
+        # a numeric parameter that differs in the seventh digit: another number in the file
+        spots = [(inter, pos) for inter in inters for pos, p in enumerate(inter['params']) if isinstance(p, float)]
+        inter, pos = spots[i % len(spots)]
+        inter['params'][pos] = inter['params'][pos] * (1 + 1e-6 * (1 + v % 3))
+    elif kind == 'inter-neighbour':
+        # one atom of an interaction replaced by the atom next to it in key order (for consecutive keys: key +- 1)
+        cands = [inter for inter in inters if 0 < len(inter['atoms']) < n]
+        inter = cands[i % len(cands)]
+        by_key = sorted(range(n), key=lambda l: inst['keys'][l])
+        rank = {l: r for r, l in enumerate(by_key)}
+        for pos in range(len(inter['atoms'])):
+            pos = (pos + j) % len(inter['atoms'])
+            r = rank[inter['atoms'][pos]]
+            free = [by_key[q] for q in (r + 1, r - 1) if 0 <= q < n and by_key[q] not in inter['atoms']]
+            if free:
+                inter['atoms'][pos] = free[v % len(free)]
+                break
     elif kind == 'atype':
         alternatives = [t for t in ATYPES if t != atoms[a]['atype']]
         atoms[a]['atype'] = alternatives[v % len(alternatives)]
@@ -377,7 +416,7 @@ def node_attrs(inst, l):
     """The attributes of logical atom `l` that are not documented as ignored."""
     atom = inst['atoms'][l]
     attrs = {k: atom[k] for k in ('atomname', 'resname', 'resid', 'atype', 'charge_group', 'charge', 'mass') if k in atom}
-    if inst['atomid'] is not None:
+    if inst['atomid'] is not None and inst['atomid'][l] is not None:
         attrs['atomid'] = inst['atomid'][l]
     if inst.get('old_resid_shift') is not None:
         attrs['_old_resid'] = atom['resid'] + inst['old_resid_shift']
@@ -405,11 +444,20 @@ def written_order(inst, sorted_first=False):
     if sorted_first:
         def key(l):
             return (inst['chain'][l] if inst['chain'] is not None else '', inst['atoms'][l]['resid'],
-                    inst['atoms'][l]['resname'], inst['atomid'][l] if inst['atomid'] is not None else 0)
+                    inst['atoms'][l]['resname'], _atomid_key(inst, l) if inst['atomid'] is not None else 0)
         order = sorted(order, key=key)
     if inst['atomid'] is None:
         return order
-    return sorted(order, key=lambda l: inst['atomid'][l])
+    return sorted(order, key=lambda l: _atomid_key(inst, l))
+
+
+def _atomid_key(inst, l):
+    value = inst['atomid'][l]
+    return float('inf') if value is None else value
+
+
+def partial_atomids(inst):
+    return inst['atomid'] is not None and any(v is None for v in inst['atomid'])
 
 
 def runs_of(seq):
@@ -831,6 +879,8 @@ def check_pdb(facts, files, expansion, atoms_of, sorted_first):
                         % (len(blocks), len(leftover), len(expansion)))
     check_records('pdb', PDB_W, blocks, expansion, atoms_of)
     for idx, (records, inst) in enumerate(zip(blocks, facts['insts'])):
+        if partial_atomids(inst):
+            continue    # where unnumbered atoms go is not prescribed; agreement with the ITP is checked above
         for k, (record, l) in enumerate(zip(records, written_order(inst, sorted_first)), 1):
             want = [10 * c for c in inst['xyz'][l]]
             if any(abs(g - w) > 1.5e-3 for g, w in zip(record['xyz'], want)):
@@ -900,7 +950,9 @@ def _classes(case, facts, names, texts):
         classes.append('atomid-order!=node-order')
     if any(inst['atomid'] is None for inst in insts):
         classes.append('atomid-absent')
-    if any(inst['atomid'] is not None and min(inst['atomid']) > 90000 for inst in insts):
+    if any(partial_atomids(inst) for inst in insts):
+        classes.append('atomid-partial')
+    if any(inst['atomid'] is not None and min(_atomid_key(inst, l) for l in range(len(inst['atomid']))) > 90000 for inst in insts):
         classes.append('atomid>90000')
     if any(inst['keys'] != list(range(len(inst['keys']))) for inst in insts):
         classes.append('keys-not-0..n-1')
@@ -955,6 +1007,12 @@ def _run_include(case):
 
 
 def _run_cli_order(case):
+    # precondition of the real caller: the molecules the CLI sorts carry an atom id on every atom or on none
+    if any(tpl['atomid'] is not None and any(v is None for v in tpl['atomid']) for tpl in case['templates']):
+        case = copy.deepcopy(case)
+        for tpl in case['templates']:
+            if tpl['atomid'] is not None and any(v is None for v in tpl['atomid']):
+                tpl['atomid'] = None
     try:
         return _run(case, 'cli-order')
     except Violation as viol:
